@@ -52,6 +52,30 @@ NEEDS = {
  "C17-d1": ("json_num_option turns a parse error into None", "JSON number whose exponent magnitude is about 2^63 or more in an Option field"),
  "C17-d2": ("scale limit compared in 32 bits (build.rs + both checks)", "exponent whose magnitude mod 2^32 is <= 150000, e.g. 1e4294967296"),
  "C17-d3": ("visit_map accepts any single key", "a JSON object with exactly one entry where a decimal is expected, e.g. {\"amount\": 12.5}"),
+ "C04-e1": ("scientific notation streams digits through a 128-byte buffer and skips the final flush of a full buffer", "digit count 129, 257, ... (fraction digits an exact multiple of 128)"),
+ "C04-e2": ("Display for BigDecimalRef passes the two thresholds swapped", "`{}` on a reference with 6..15 leading zeros or scale in [-15,-6]: text still round-trips, only the documented-threshold / value-vs-reference clauses break"),
+ "C04-e3": ("plain notation writes the zero run in 256-byte blocks and drops a remainder of exactly one block", "scale -256, -512, ... in plain notation"),
+ "C04-f1": ("plain notation writes zeros in 64-byte blocks and drops a remainder of exactly 64", "scale -64, -128, ... in plain notation"),
+ "C04-f2": ("Display for BigDecimalRef passes the two thresholds swapped", "`{}` on a reference with 6..15 leading zeros or scale in [-15,-6]"),
+ "C04-f3": ("bit-length fast reject in == / cmp uses 3322/1000 for log2(10)", "correctly printed plain text re-parses to a decimal that compares unequal: scale difference 205, 264, 323, ... and digits at or just above a power of two"),
+ "C12-e1": ("divisor truncated to p+3 digits before the iteration", "x longer than p+3 digits leading with 1.0-1.41, 1/x next to a p-digit boundary, directed mode (2 of 400000 random; 96 of 229719 grid cells)"),
+ "C12-e2": ("`&a * &b` shortcut for b == 1 adds b's scale (wrong for 1.000)", "x within about 10^-(p+2) of 1: the iterate is a padded one and the Newton loop never settles"),
+ "C12-e3": ("initial guess trusts bit_count <= 1074 instead of checking the float", "308-324 digit input on a platform that flushes subnormal exp2 results to zero: guess 0, result 0"),
+ "C12-f1": ("power-of-two shortcut takes 2^-k straight from exp2", "exact power of two with k >= 1075 (result 0), or any exp2 that is a last bit off on integer arguments"),
+ "C12-f2": ("staged working precision with a numeric convergence test across stages", "digits 33..64 of 1/x all zeros or nines and p >= 31 (e.g. 10^k +- 1 with k >= 64)"),
+ "C12-f3": ("u64/u128 fast path overflows when appending the sticky digit", "integer value exactly 1 or 2 at p = 36 exactly"),
+ "C14-e1": ("u64 shift fast path forgets the implicit leading bit", "f32 with exponent field 191 (magnitude in [2^64, 2^65))"),
+ "C14-e2": ("from_f64 bypasses the subnormal dispatch that parse_from_f64 no longer re-checks (two sites)", "a subnormal f64 through FromPrimitive::from_f64 specifically"),
+ "C14-e3": ("digit transposition in word 41 of the 5^1074 constant", "any subnormal f64, visible only to an exact-value check (relative error 2^-1172: round trip and tolerance still pass)"),
+ "C14-f1": ("power built from repeated multiplications by a hoisted powi(10,19)", "platform whose powi is >= 1 ULP off and a large positive exponent: the error enters up to 16 times"),
+ "C14-f2": ("division fast path for short decimals", "platform whose powi(10,k) is inexact for k <= 22 and a float with a short decimal expansion: round trip breaks"),
+ "C14-f3": ("multiply-by-ten loop beyond 10^22", "certain significands (92827 and multiples) with exponents 200..308: 2.5 per million exceed 2^-48"),
+ "C17-e1": ("scale limit compared in 32 bits", "exponent whose magnitude mod 2^32 is <= 150000"),
+ "C17-e2": ("json_num_option turns an unparsable number into None", "valid JSON number whose scale does not fit i64, Option adapter"),
+ "C17-e3": ("visit_map ignores the key", "a genuine map / JSON object whose first value is decimal-like where a decimal is expected"),
+ "C17-f1": ("parser strips every leading '+' of the exponent, then accepts one more sign", "numeric string with a doubled exponent sign (1e+-5): accepted instead of an error"),
+ "C17-f2": ("subnormal test on the exponent bits forgets the sign bit (two sites)", "negative subnormal f64 handed over through visit_f64"),
+ "C17-f3": ("json_num_option rejects exponent fields longer than 7 characters", "foreign JSON with leading zeros in the exponent (1.5e+0000007) through the Option adapter"),
 }
 def sh(cmd, **kw):
     return subprocess.run(cmd, shell=True, capture_output=True, text=True, **kw)
@@ -88,7 +112,7 @@ for name in sorted(os.listdir(os.path.join(HERE, "seeded"))):
     print(name, verdict, rule, "run", run, f"{dt:.0f}s", flush=True)
 if not only:
     with open(os.path.join(HERE, "SENSITIVITY.md"), "w") as f:
-        f.write("# Sensitivity: seeded changes vs. checks\n\nEach change compiles, passes the 861-test suite, and breaks its property (demonstration in `seeded/<id>/demo.rs`, confirmation in `confirmation.txt`). Written by sixteen sub-agents in two rounds that saw only the property text (second round: asked for subtle changes that random testing with a few thousand ordinary inputs would most likely miss). Regenerate with `tools/run_seeded.py` (applies each patch to /repo, runs the quick check, reverts).\n\n| seeded change | property | quick check | rule that fired | first failing run | what it needs |\n|---|---|---|---|---|---|\n")
+        f.write("# Sensitivity: seeded changes vs. checks\n\nEach change compiles, passes the 861-test suite, and breaks its property (demonstration in `seeded/<id>/demo.rs`, confirmation in `confirmation.txt`). Written by twenty-four sub-agents in three rounds that saw only the property text (second round: asked for subtle changes that random testing with a few thousand ordinary inputs would most likely miss). Regenerate with `tools/run_seeded.py` (applies each patch to /repo, runs the quick check, reverts).\n\n| seeded change | property | quick check | rule that fired | first failing run | what it needs |\n|---|---|---|---|---|---|\n")
         for (name, prop, verdict, rule, run) in rows:
             f.write(f"| {name} | {prop} | {verdict} | {rule} | {run} | {NEEDS.get(name, ('',''))[1]} |\n")
         caught = sum(1 for r in rows if r[2] == "CAUGHT")
